@@ -1,6 +1,7 @@
 import RTV.Drv.Proto
 import RTV.Model.Re
 import RTV.Model.Seq
+import RTV.Model.SeqEnv
 import RTV.Gen.Regexes
 import RTV.Gen.CharTables
 /-! Driver handlers for L1 `Re` and the sequence model (C13).
@@ -13,6 +14,9 @@ import RTV.Gen.CharTables
   ip.sweep <ip|seq> <cps> <n> <a:b:tag>…     -> start:len:textcps:data;…   (sweep on given match spans)
   guid.extract <cps>                         -> start:len:textcps:data;…   (BaseGUIDExtractor.extract)
   guid.score <cps>                           -> integer score 0..100 (the code returns score/100)
+  spec.ip <en|zh> <cps>                      -> typecps:textcps:valuecps;…   (recognize_ip_address, runner fields)
+  spec.guid <cps>                            -> typecps:textcps:valuecps:scorecps;…
+  spec.bool <cps>                            -> typecps:textcps:0|1;…  | err:Other
 -/
 namespace RTV.Drv
 open RTV.Py RTV.Re RTV.Seq
@@ -49,11 +53,6 @@ def hReLang : Handler
     | none => "err:KeyError"
   | _ => "bad-op"
 
-def pyChars : RTV.Match.CharClass where
-  isSpace c := inRangesArr RTV.Gen.spaceRanges c
-  isDigit c := inRangesArr RTV.Gen.digitRanges c
-  isAlpha c := inRangesArr RTV.Gen.alphaRanges c
-
 def showER (r : ER) : String := s!"{r.start}:{r.len}:{showCps r.text}:{r.data}"
 def showERs (l : List ER) : String := ";".intercalate (l.map showER)
 
@@ -84,6 +83,22 @@ def hGuidScore : Handler
   | [s] => toString (scoreGuid RTV.Gen.reTables RTV.Gen.guidElementRegex (parseCps s))
   | _ => "bad-op"
 
+def hSpecIp : Handler
+  | [w, s] => ";".intercalate ((ipModelRun genSeqEnv (w == "zh") (parseCps s)).map fun (t, x, v) =>
+      s!"{showCps t}:{showCps x}:{showCps v}")
+  | _ => "bad-op"
+
+def hSpecGuid : Handler
+  | [s] => ";".intercalate ((guidModelRun genSeqEnv (parseCps s)).map fun (t, x, v, sc) =>
+      s!"{showCps t}:{showCps x}:{showCps v}:{showCps sc}")
+  | _ => "bad-op"
+
+def hSpecBool : Handler
+  | [s] => match boolModelRun RTV.Choice.genEnv (parseCps s) with
+    | some rs => ";".intercalate (rs.map fun (t, x, v) => s!"{showCps t}:{showCps x}:{showBool v}")
+    | none => "err:Other"
+  | _ => "bad-op"
+
 def dispatchRe (op : String) (args : List String) : Option String :=
   match op with
   | "re.find" => some (hReFind args)
@@ -95,6 +110,9 @@ def dispatchRe (op : String) (args : List String) : Option String :=
   | "ip.sweep" => some (hIpSweep args)
   | "guid.extract" => some (hGuidExtract args)
   | "guid.score" => some (hGuidScore args)
+  | "spec.ip" => some (hSpecIp args)
+  | "spec.guid" => some (hSpecGuid args)
+  | "spec.bool" => some (hSpecBool args)
   | _ => none
 
 end RTV.Drv
